@@ -191,7 +191,15 @@ func (d *drv) apply(ev string, step int, before obs) (applicable bool, err error
 	case m.EvKeepalive:
 		d.s.SendKeepalive()
 	case m.EvNotification:
-		d.s.SendNotification(6, 0)
+		// any NOTIFICATION must end the session the same way: vary code/subcode with the position in the sequence
+		// and the case (all pairs are ones bio-rd's decoder accepts)
+		codes := [][2]uint8{{6, 0}, {1, 1}, {1, 2}, {2, 2}, {3, 1}, {4, 0}, {5, 0}, {6, 2}, {2, 6}}
+		h := step
+		for _, e := range d.c.Events {
+			h = h*31 + len(e) + len(d.c.Prelude)
+		}
+		nc := codes[(h%len(codes)+len(codes))%len(codes)]
+		d.s.SendNotification(nc[0], nc[1])
 	case m.EvGarbage:
 		// a header whose marker is wrong and nothing else (length 19, type KEEPALIVE)
 		g := wire.Keepalive()
